@@ -57,6 +57,8 @@ type Types struct {
 	structs map[string]*structInfo
 	sorts   map[string]*smt.Sort // by types.TypeString
 	typeIDs map[string]int
+	faCount int
+	ZeroAxiom map[string]*smt.Term // defining axioms of named all-zero arrays (see ZeroArray)
 	tpSorts map[string]*smt.Sort
 }
 
@@ -271,7 +273,7 @@ func (ts *Types) Zero(t types.Type) *smt.Term {
 	case *types.Interface:
 		return NilIface
 	case *types.Array:
-		return smt.ConstArray(ts.SortOf(t), ts.Zero(u.Elem()))
+		return ts.ZeroArray(u.Elem())
 	case *types.Struct:
 		si := ts.StructOf(t)
 		var args []*smt.Term
@@ -282,6 +284,28 @@ func (ts *Types) Zero(t types.Type) *smt.Term {
 	}
 	unsupp("no zero for %s", t)
 	return nil
+}
+
+// ZeroArray is the array (indexed by BV64) all of whose elements are the zero value of elem.
+// For element sorts whose zero is not a literal (type parameters) a named array with a defining
+// axiom is used, because solvers accept only values in `(as const ...)`.
+func (ts *Types) ZeroArray(elem types.Type) *smt.Term {
+	es := ts.SortOf(elem)
+	z := ts.Zero(elem)
+	as := smt.Array(BV64, es)
+	if _, ok := elem.(*types.TypeParam); !ok {
+		return smt.ConstArray(as, z)
+	}
+	name := "zeroarr$" + es.Name
+	arr := smt.Const(name, as)
+	if ts.ZeroAxiom == nil {
+		ts.ZeroAxiom = map[string]*smt.Term{}
+	}
+	if _, ok := ts.ZeroAxiom[name]; !ok {
+		j := smt.BVar("j!za", BV64)
+		ts.ZeroAxiom[name] = smt.Forall([]*smt.Term{j}, smt.Eq(smt.Select(arr, j), z), smt.Select(arr, j))
+	}
+	return arr
 }
 
 // Inv is the type invariant assumed for every value of type t that comes from
@@ -301,8 +325,11 @@ func (ts *Types) Inv(v *smt.Term, t types.Type, depth int) *smt.Term {
 			smt.BVUle(SlLen(v), SlCap(v)), smt.BVUle(SlCap(v), maxLen), smt.BVUle(SlOff(v), maxLen),
 			smt.IGe(SlRef(v), smt.IntLit(0)),
 			smt.Implies(smt.Eq(SlRef(v), smt.IntLit(0)), smt.Eq(SlCap(v), bv64(0))))
-	case *types.Pointer, *types.Map, *types.Chan:
+	case *types.Map, *types.Chan:
 		return smt.IGe(v, smt.IntLit(0))
+	case *types.Pointer:
+		// no constraint: references of embedded objects (fields of struct type) are negative
+		return smt.True
 	case *types.Struct:
 		if _, ok := t.(*types.TypeParam); ok {
 			return smt.True
